@@ -93,7 +93,8 @@ def snapshots(commands, global_decls=False):
 # ------------------------------------------------------------------------------------------- generator
 DEFAULTS = dict(ncmds=(8, 26), p_push=0.12, p_pop=0.10, p_check=0.22, named=0.0, nested_named=0.0, defines=0.0,
                 queries=(), q_prob=0.7, unsat_bias=0.3, all_named=False, max_live=14, max_depth=3, big=0.15, max_push=4,
-                reassert=0.08, value_terms=True, final_check=True, clausal=0.35, bool_args=True, allow_let=True, reenter=0.25, horn=0.3, hard3=0.25)
+                reassert=0.08, value_terms=True, final_check=True, clausal=0.35, bool_args=True, allow_let=True, reenter=0.25, horn=0.3, hard3=0.25,
+                uf_heavy=0.4)
 
 
 class HistGen:
@@ -108,6 +109,9 @@ class HistGen:
         self.sig = gen.make_signature(rng, prof, self.o['bool_args'], nconsts=(5, 8) if self.horn else (2, 4))
         self.tg = gen.TermGen(rng, prof, self.sig, big_consts=self.o['big'], max_depth=self.o['max_depth'])
         self.tg.allow_let = self.o['allow_let']
+        pp = gen.PROFILES[prof]
+        if pp['uf'] and pp['nums'] and not pp['dl'] and any(f[2] in pp['nums'] for f in self.sig.funs):
+            self.tg.uf_heavy = rng.random() < self.o['uf_heavy']
         self.cmds = []
         self.levels = [[]]        # live assertion T's per level
         self.popped = []          # assertions (T) that were popped, candidates for re-assertion
